@@ -94,6 +94,9 @@ type VerifHooks struct {
 	// optional admission control for foreign kinds (calls that would block outside the executor)
 	CanAdd       func() bool
 	FlushVariant func(variant int, anyBusy bool) int
+	// optional: a malformed call (variant) that the wrapper must refuse with an error and without
+	// any effect on the executor; returns whether it was refused
+	Reject func(variant int, id int64) bool
 }
 
 type VerifFactory func(in VerifInst, rt *VerifRT) *VerifHooks
@@ -787,6 +790,22 @@ func VerifRunCase(c VerifCase, factory VerifFactory) (out VerifOut) {
 					st.Act = []any{"sync", rt.idx, ci, true, append([]int64{}, snap...)}
 				} else {
 					st.Act = []any{"sync", rt.idx, ci, false, []int64{}}
+				}
+			}
+		case "reject":
+			rt := inst(op[1])
+			if rt == nil || rt.hooks.Reject == nil || (rt.hooks.CanAdd != nil && !rt.hooks.CanAdd()) {
+				continue
+			}
+			ci, v, id := int(vNum(op[2])), int(vNum(op[3])), vNum(op[4])
+			var refused atomic.Bool
+			started := start(rt, ci, func() { refused.Store(rt.hooks.Reject(v, id)) })
+			okRun = settle(nil)
+			if okRun {
+				out.Steps[len(out.Steps)-1].Act = []any{"reject", rt.idx, ci, v, id}
+				if started && rt.clients[ci].idle.Load() && !refused.Load() {
+					out.Err = "a malformed call was accepted: " + toJSON(op)
+					okRun = false
 				}
 			}
 		case "rel":
